@@ -41,6 +41,71 @@ def aff(base, k):
     return ("aff", base, k)
 
 
+def _add_parts(t):
+    if t[0] == "binop" and t[1] == "Add":
+        return _add_parts(t[2]) + _add_parts(t[3])
+    return [t]
+
+
+def mk_add(l, r):
+    """`l + r` in canonical form: the chain is flattened (+ is associative
+    for every type that has it), adjacent string constants are merged, empty
+    strings dropped, and the result re-nested to the left."""
+    parts = []
+    for p in _add_parts(l) + _add_parts(r):
+        if p[0] == "const" and isinstance(p[1], str):
+            if p[1] == "" :
+                continue
+            if parts and parts[-1][0] == "const" and isinstance(
+                    parts[-1][1], str):
+                parts[-1] = ("const", parts[-1][1] + p[1])
+                continue
+        parts.append(p)
+    if not parts:
+        return ("const", "")
+    out = parts[0]
+    for p in parts[1:]:
+        out = ("binop", "Add", out, p)
+    return out
+
+
+def _percent_format(fmt_, arg):
+    """'..%s..%r..' % arg as a concatenation (only %s, %r and %% specs)."""
+    import re as _re
+    pieces = _re.split(r"(%[sr%])", fmt_)
+    if _re.search(r"%(?![sr%])", fmt_.replace("%%", "")):
+        return None
+    nholes = sum(1 for p in pieces if p in ("%s", "%r"))
+    if arg[0] == "tuple":
+        args = list(arg[1])
+    else:
+        args = [arg]
+    if nholes != len(args):
+        return None
+    out = ("const", "")
+    for p in pieces:
+        if p == "%%":
+            out = mk_add(out, ("const", "%"))
+        elif p == "%s":
+            out = mk_add(out, ("call", ("global", "builtins.str"),
+                               (args.pop(0),), ()))
+        elif p == "%r":
+            out = mk_add(out, ("call", ("global", "builtins.repr"),
+                               (args.pop(0),), ()))
+        elif p:
+            out = mk_add(out, ("const", p))
+    return out
+
+
+# results of standard-library calls that are named tuples: field -> index
+NAMED_FIELDS = {
+    "urllib.parse.urlparse": ("scheme", "netloc", "path", "params", "query",
+                              "fragment"),
+    "urllib.parse.urlsplit": ("scheme", "netloc", "path", "query",
+                              "fragment"),
+}
+
+
 def const(v):
     return ("const", v)
 
@@ -92,6 +157,8 @@ def fmt(t):
         return "%s[%s]" % (fmt(t[1]), fmt(t[2]))
     if k == "elem":
         return "%s[*]" % fmt(t[1])
+    if k == "elem2":
+        return "%s[*']" % fmt(t[1])
     if k == "copyof":
         return "copy(%s)" % fmt(t[1])
     if k == "newlist":
@@ -137,6 +204,8 @@ def fmt_atom(a):
     if k == "raises":
         return "raises(%s)" % fmt(a[1])
     if k == "loop":
+        if len(a) > 2:
+            return "loop(%s %s)" % (a[1], fmt(a[2]))
         return "loop(%s)" % a[1]
     return repr(a)
 
@@ -192,6 +261,8 @@ class Path:
         self.valuation = {}      # atom -> value
         self.order = []          # atoms in the order consulted
         self.effects = []        # ('store', target term, value term) | ('call', term) | ...
+        self.builders = {}       # fresh list number -> elements appended so
+                                 # far (None once a mutation is not tracked)
         self.outcome = None      # ('return', term) | ('raise', cls, args) | ('fall',)
         self.env = None
 
@@ -262,7 +333,8 @@ class Interp:
         self.fi = fi
         self.P = program
         self.m = program.model
-        self.inline = inline or (lambda f: False)
+        user_inline = inline or (lambda f: False)
+        self.inline = lambda f: user_inline(f) or is_unknown_helper(f)
         self.loop_policy = loop_policy or (lambda node: "once")
         self.assume = assume or {}
         self.max_inline = max_inline
@@ -319,6 +391,7 @@ class Interp:
             env[a.kwarg.arg] = ("free", "**" + a.kwarg.arg)
         env.update(self.bind)
         self.depth = 0
+        self.loop_depth = 0
         self.fstack = [self.fi]
         try:
             try:
@@ -491,6 +564,10 @@ class Interp:
             return bool(t[1])
         if t[0] in ("closure", "lambda"):
             return True
+        if t[0] == "binop" and t[1] == "Add" and any(
+                p[0] == "const" and isinstance(p[1], str) and p[1]
+                for p in _add_parts(t)):
+            return True     # a string with a non-empty literal part
         if t[0] == "ifexp":
             return self.term_truth(t[2] if self.decide(t[1]) else t[3])
         return self.decide(("truthy", t))
@@ -591,7 +668,7 @@ class Interp:
             # assumption: the mapping stores no None values
             return not self.decide(("contains", t[2], t[1]))
         if t[0] in ("tuple", "list", "dict", "bool", "closure", "fstr",
-                    "newlist", "newdict"):
+                    "newlist", "newdict", "binop"):
             return False
         return self.decide(("isnone", t))
 
@@ -612,6 +689,10 @@ class Interp:
             base = self.eval(node.value, env)
             if base[0] == "global":
                 return ("global", base[1] + "." + node.attr)
+            if base[0] == "call" and base[1][0] == "global" \
+                    and node.attr in NAMED_FIELDS.get(base[1][1], ()):
+                return ("index", base, const(
+                    NAMED_FIELDS[base[1][1]].index(node.attr)))
             return ("attr", base, node.attr)
         if isinstance(node, ast.Tuple):
             return ("tuple", tuple(self.eval(e, env) for e in node.elts))
@@ -620,6 +701,7 @@ class Interp:
                 # an empty display is a fresh mutable object: later appends
                 # are effects, its truthiness is not known statically
                 self.fresh_counter += 1
+                self.path.builders[self.fresh_counter] = []
                 return ("newlist", self.fresh_counter)
             return ("list", tuple(self.eval(e, env) for e in node.elts))
         if isinstance(node, ast.Dict):
@@ -629,13 +711,26 @@ class Interp:
             return ("dict", tuple((self.eval(k, env), self.eval(v, env))
                                   for k, v in zip(node.keys, node.values)))
         if isinstance(node, ast.JoinedStr):
-            parts = []
+            # f"a{x}b{y!r}" is the concatenation 'a' + x + 'b' + repr(y)
+            # (plain {x} holes are taken to hold strings, as the operands of
+            # the + spelling must)
+            out = const("")
             for v in node.values:
                 if isinstance(v, ast.Constant):
-                    parts.append(str(v.value))
-                else:
-                    parts.append(self.eval(v.value, env))
-            return ("fstr", tuple(parts))
+                    out = mk_add(out, const(str(v.value)))
+                    continue
+                t = self.eval(v.value, env)
+                if v.format_spec is not None:
+                    t = ("call", ("global", "builtins.format"),
+                         (t, self.eval(v.format_spec, env)), ())
+                elif v.conversion == ord("r"):
+                    t = ("call", ("global", "builtins.repr"), (t,), ())
+                elif v.conversion == ord("s"):
+                    t = ("call", ("global", "builtins.str"), (t,), ())
+                elif v.conversion == ord("a"):
+                    t = ("call", ("global", "builtins.ascii"), (t,), ())
+                out = mk_add(out, t)
+            return out
         if isinstance(node, ast.Subscript):
             base = self.eval(node.value, env)
             sl = node.slice
@@ -684,6 +779,13 @@ class Interp:
                     return const(v)
                 except Exception:
                     pass
+            if isinstance(node.op, ast.Add):
+                return mk_add(l, r)
+            if isinstance(node.op, ast.Mod) and is_const(l) \
+                    and isinstance(l[1], str):
+                f = _percent_format(l[1], r)
+                if f is not None:
+                    return f
             return ("binop", type(node.op).__name__, l, r)
         if isinstance(node, ast.UnaryOp):
             v = self.eval(node.operand, env)
@@ -804,6 +906,40 @@ class Interp:
                 and ft[1][0] not in ("const",):
             # d.get(k): the value d[k], or None when k is not in d
             return ("get", ft[1], args[0])
+        if ft[0] == "attr" and ft[1][0] == "newlist" \
+                and ft[1][1] in self.path.builders and ft[2] not in (
+                    "copy", "index", "count"):
+            # a list built up locally: its contents are known as long as
+            # every mutation is one we model and happens outside a loop
+            b = self.path.builders
+            n = ft[1][1]
+            if b[n] is not None and not self.loop_depth and not kws:
+                if ft[2] == "append" and len(args) == 1:
+                    b[n] = b[n] + [args[0]]
+                elif ft[2] == "extend" and len(args) == 1 \
+                        and args[0][0] in ("list", "tuple"):
+                    b[n] = b[n] + list(args[0][1])
+                else:
+                    b[n] = None
+            else:
+                b[n] = None
+        if ft[0] == "attr" and ft[2] == "join" and len(args) == 1 \
+                and not kws and is_const(ft[1]) and isinstance(ft[1][1], str):
+            seq = None
+            if args[0][0] == "newlist" and self.path.builders.get(
+                    args[0][1]) is not None:
+                seq = self.path.builders[args[0][1]]
+            elif args[0][0] in ("list", "tuple"):
+                seq = list(args[0][1])
+            if seq is not None:
+                out = const("")
+                for i, el in enumerate(seq):
+                    if i and ft[1][1]:
+                        out = mk_add(out, ft[1])
+                    out = mk_add(out, el)
+                return out
+        if ft[0] == "attr" and ft[2] == "group" and len(args) > 1 and not kws:
+            return ("tuple", tuple(("call", ft, (a,), ()) for a in args))
         if ft[0] == "attr" and ft[2] == "close" and not args and not kws:
             self.path.effects.append(("close", ft[1], node))
             return const(None)
@@ -849,6 +985,13 @@ class Interp:
             args = (const("<message>"),) + args[1:]
         t = ("call", ft, args, kws)
         if not self.is_pure(ft):
+            # the n-th identical effectful call is a different event with a
+            # different result (reading the next line, popping a stack)
+            n = sum(1 for e in self.path.effects
+                    if e[0] == "call" and e[1][1] == ft and e[1][2] == args
+                    and tuple(k for k in e[1][3] if k[0] != "<nth>") == kws)
+            if n:
+                t = ("call", ft, args, kws + (("<nth>", const(n + 1)),))
             self.path.effects.append(("call", t, node))
         # constant folding of pure str methods on constants
         if ft[0] == "attr" and is_const(ft[1]) and isinstance(ft[1][1], str) \
@@ -977,6 +1120,8 @@ class Interp:
             if isinstance(st.op, (ast.Add, ast.Sub)) and is_const(v) \
                     and isinstance(v[1], int):
                 nv = aff(cur, v[1] if isinstance(st.op, ast.Add) else -v[1])
+            elif isinstance(st.op, ast.Add):
+                nv = mk_add(cur, v)
             else:
                 nv = ("binop", type(st.op).__name__, cur, v)
             self.assign(st.target, nv, env, st)
@@ -1085,7 +1230,9 @@ class Interp:
             if not self.decide(("loop", "nonempty@%d" % st.lineno)):
                 self._block(st.orelse, env)
                 return
-        if it[0] in ("tuple", "list") and policy == "unroll":
+        if it[0] in ("tuple", "list") and (policy == "unroll" or len(
+                it[1]) <= 4):
+            # a literal sequence: the loop is its unrolling
             broke = False
             for el in it[1]:
                 self.assign(st.target, el, env, st)
@@ -1104,13 +1251,28 @@ class Interp:
         el = ("elem", it)
         self.assign(st.target, el, env, st)
         self.path.effects.append(("loop-enter", st.lineno, it, st))
+        self.loop_depth += 1
         try:
-            self._block(st.body, env)
-        except _Break:
-            self.path.effects.append(("loop-break", st.lineno, st))
-            return
-        except _Continue:
-            pass
+            try:
+                self._block(st.body, env)
+            except _Break:
+                self.path.effects.append(("loop-break", st.lineno, st))
+                return
+            except _Continue:
+                pass
+            if policy == "twice" and self.decide(("loop", "second", it)):
+                # a second, distinct representative: what one element leaves
+                # behind (a remembered candidate, a flag) meets another one
+                self.assign(st.target, ("elem2", it), env, st)
+                try:
+                    self._block(st.body, env)
+                except _Break:
+                    self.path.effects.append(("loop-break", st.lineno, st))
+                    return
+                except _Continue:
+                    pass
+        finally:
+            self.loop_depth -= 1
         self.path.effects.append(("loop-exit", st.lineno, st))
         self._block(st.orelse, env)
 
@@ -1119,12 +1281,24 @@ class Interp:
         if policy == "skip" or not self.truth(st.test, env):
             self._block(st.orelse, env)
             return
+        self.loop_depth += 1
         try:
-            self._block(st.body, env)
+            try:
+                self._block(st.body, env)
+            except _Continue:
+                pass
+            if policy == "twice" and self.truth(st.test, env):
+                # a second iteration: what the first one left in the locals
+                # meets another round
+                self.path.effects.append(("loop-second", st.lineno, st))
+                try:
+                    self._block(st.body, env)
+                except _Continue:
+                    pass
         except _Break:
             return
-        except _Continue:
-            pass
+        finally:
+            self.loop_depth -= 1
         # make the loop-carried state observable: the value of the loop test
         # after one iteration
         self.path.effects.append(("store", ("free", "<loop test after one "
@@ -1230,6 +1404,93 @@ class Interp:
                 if self.m.is_subclass(r.cls, hq):
                     return True
         return False
+
+
+_VOCAB = None
+
+
+def spec_vocabulary():
+    """Every identifier the references (/verif/spec) and the rules mention.
+    A private helper of the repository whose name is not among them is
+    unknown to every rule: it can only be an implementation detail of its
+    callers, so the interpreter executes it inline (extracting statements
+    into a new private helper must not change any verdict)."""
+    global _VOCAB
+    if _VOCAB is None:
+        import glob
+        import os
+        import re
+        from .report import VERIF
+        words = set()
+        for pat in ("spec/*.py", "rules/*.py"):
+            for fn in glob.glob(os.path.join(VERIF, pat)):
+                with open(fn) as f:
+                    words.update(re.findall(r"[A-Za-z_][A-Za-z0-9_]*",
+                                            f.read()))
+        _VOCAB = words
+    return _VOCAB
+
+
+def is_unknown_helper(f):
+    name = getattr(f, "name", None) or f.qualname.rsplit(".", 1)[-1]
+    if not name.startswith("_") or name.startswith("__"):
+        return False
+    return name not in spec_vocabulary()
+
+
+def carried_state_policy(fnode):
+    """Loop policy for cross-checks: a loop that carries state from one
+    iteration to the next -- it can `break`, has an `else`, or binds a local
+    that is read after the loop or at the top of a later iteration -- is run
+    on two distinct representative elements ('twice'), so that what one
+    element leaves behind meets another element; every other loop is run on
+    one representative (its iterations are independent)."""
+    cache = {}
+
+    def own_breaks(loop):
+        stack = list(loop.body)
+        while stack:
+            n = stack.pop()
+            if isinstance(n, ast.Break):
+                return True
+            if isinstance(n, (ast.For, ast.While, ast.FunctionDef,
+                              ast.Lambda, ast.ClassDef)):
+                if isinstance(n, (ast.For, ast.While)):
+                    stack.extend(n.orelse)
+                continue
+            stack.extend(ast.iter_child_nodes(n))
+        return False
+
+    def policy(loop):
+        if loop in cache:
+            return cache[loop]
+        r = "once"
+        if isinstance(loop, ast.For):
+            if loop.orelse or own_breaks(loop):
+                r = "twice"
+            else:
+                tgt = {n.id for n in ast.walk(loop.target)
+                       if isinstance(n, ast.Name)}
+                stored = set()
+                inside = set()
+                for b in loop.body:
+                    for n in ast.walk(b):
+                        inside.add(n)
+                        if isinstance(n, ast.Name) and isinstance(
+                                n.ctx, ast.Store):
+                            stored.add(n.id)
+                stored -= tgt
+                if stored:
+                    for n in ast.walk(fnode):
+                        if isinstance(n, ast.Name) and isinstance(
+                                n.ctx, ast.Load) and n.id in stored \
+                                and n not in inside and getattr(
+                                    n, "lineno", 0) > loop.lineno:
+                            r = "twice"
+                            break
+        cache[loop] = r
+        return r
+    return policy
 
 
 def table(paths):
